@@ -455,6 +455,7 @@ func (p *peer) getContext(s *session, withWg bool) *handlerCtx {
 func (p *peer) putContext(ctx *handlerCtx, withWg bool) {
 	if withWg {
 		// count get context
+		vp("ctx.put", ctx.sess, int64(ctx.input.Seq()), int64(ctx.input.Mtype()))
 		ctx.sess.graceCtxWaitGroup.Done()
 	}
 	ctxPool.Put(ctx)
